@@ -300,9 +300,14 @@ func (c *clipperBase) buildPath(op *OutPt, reverse, isOpen bool, path *Path64) b
 }
 
 func (c *clipperBase) executeInternal(ct ClipType, fillRule FillRule) {
-	if ct == NoClip {
+	if ct == NoClip || ct > Xor {
 		c.succeeded = true // nothing to do is not a failure
 		return
+	}
+	if fillRule > Negative {
+		// the sweep's fill-rule switches disagree about unknown values and corrupt its
+		// state; fall back to the default rule
+		fillRule = EvenOdd
 	}
 
 	c.fillRule = fillRule
